@@ -23,7 +23,7 @@ fn machine(idx: u64, mode: u64, debug: bool) -> (Machine, Vec<u16>) {
     // user stack content (arguments for the calling-convention signature)
     for k in 0..6u16 { m.pokes.push((0xFD00 + k, 0xA000 + k)); }
     // interrupt handler: RTI only; vector x90
-    m.pokes.push((0x0190, 0x1F00)); m.pokes.push((0x1F00, 0x8000));
+    m.pokes.push((0x0190, 0x1F00)); m.pokes.push((0x0121, 0x1F00)); m.pokes.push((0x1F00, 0x8000));
     (m, words)
 }
 fn signature(addr: u16) -> Option<ParameterList> {
@@ -33,12 +33,12 @@ fn signature(addr: u16) -> Option<ParameterList> {
 #[derive(Clone, Debug, PartialEq)]
 struct ExpFrame { caller: u16, callee: u16, kind: u8, args: Vec<u16>, fp: Option<u16> }
 
-fn run(idx: u64, mode: u64, debug: bool, int_at: Option<u64>) -> Result<(u64, u64), (String, String)> {
+fn run(idx: u64, mode: u64, debug: bool, int_at: Option<u64>, vect: u8) -> Result<(u64, u64), (String, String)> {
     let (m, words) = machine(idx, mode, debug);
     let mut p = build(&m);
     for a in 0x3000..0x3008u16 { if let Some(s) = signature(a) { p.sim.frame_stack.set_subroutine_def(a, s); } }
-    if let Some(at) = int_at { p.add_source(0x90, 4, vec![at]); }
-    let what = format!("program {words:x?} mode {mode} debug_frames={debug} interrupt_at={int_at:?}");
+    if let Some(at) = int_at { p.add_source(vect, 4, vec![at]); }
+    let what = format!("program {words:x?} mode {mode} debug_frames={debug} interrupt_at={int_at:?} vector x{vect:02X}");
     let mut exp: Vec<ExpFrame> = vec![];
     let mut maxdepth = 0u64; let mut steps = 0u64;
     for _ in 0..60 {
@@ -90,7 +90,7 @@ fn run(idx: u64, mode: u64, debug: bool, int_at: Option<u64>) -> Result<(u64, u6
 }
 
 pub fn run_engine(ctx: &Ctx) -> Report {
-    let mut rep = Report::new("every program of 4 instructions over {JSR +0, JSR +1, JSRR R1, TRAP x21, TRAP x25, RET (= JMP R7), JMP R1, RTI, ADD} (6561 programs, unbalanced returns included) followed by a HALT sled x {user/virtual traps, user/real traps, supervisor/virtual with a prepared stack for RTI} x debug frames on/off x {no interrupt, one vectored interrupt raised at each of the first 10 (thorough 16) polls}; calling-convention (2 params, prepared stack) and pass-by-register signatures registered for 5 callee addresses; run in lock-step with RefLC3; after every step len() = calls - returns saturating, is_empty(), and with debug frames the entry list (caller address, callee/vector, kind, arguments per signature, frame pointer). non-trivial = runs that reach depth >= 2");
+    let mut rep = Report::new("every program of 4 instructions over {JSR +0, JSR +1, JSRR R1, TRAP x21, TRAP x25, RET (= JMP R7), JMP R1, RTI, ADD} (6561 programs, unbalanced returns included) followed by a HALT sled x {user/virtual traps, user/real traps, supervisor/virtual with a prepared stack for RTI} x debug frames on/off x {no interrupt, one vectored interrupt (vector x90, or x21 whose low byte equals a trap vector with a built-in signature) raised at each of the first 10 (thorough 16) polls}; calling-convention (2 params, prepared stack) and pass-by-register signatures registered for 5 callee addresses; run in lock-step with RefLC3; after every step len() = calls - returns saturating, is_empty(), and with debug frames the entry list (caller address, callee/vector, kind, arguments per signature, frame pointer). non-trivial = runs that reach depth >= 2");
     let polls = ctx.pick(10u64, 16u64);
     let stride = ctx.pick(3u64, 1u64);
     let nprog = 6561u64.div_ceil(stride);
@@ -98,10 +98,11 @@ pub fn run_engine(ctx: &Ctx) -> Report {
         let int = k % (polls + 1); let debug = k / (polls + 1) % 2 == 1; let mode = k / (2 * (polls + 1)) % MODES; let pi = k / (2 * (polls + 1) * MODES);
         let idx = (pi * stride + (mode + int) % stride).min(6560);
         let int_at = if int == 0 { None } else { Some(int - 1) };
+        let vect = if (pi + int) % 2 == 0 { 0x90u8 } else { 0x21u8 };
         acc.evals += 1; acc.traces += 1;
-        match run(idx, mode, debug, int_at) {
+        match run(idx, mode, debug, int_at, vect) {
             Ok((steps, d)) => { acc.transitions += steps; if d >= 2 { acc.nontrivial += 1; } acc.outcomes.insert(mix(d, steps.min(30))); if int_at.is_some() { acc.count("with_interrupt", 1); } }
-            Err((sig, d)) => acc.violation(sig, format!("{idx}:{mode}:{}:{}", debug as u8, int_at.map(|x| x as i64).unwrap_or(-1)), d),
+            Err((sig, d)) => acc.violation(sig, format!("{idx}:{mode}:{}:{}:{vect}", debug as u8, int_at.map(|x| x as i64).unwrap_or(-1)), d),
         }
         acc.sample(k, ctx.seed, 40_009, || format!("program {:x?} mode {mode} debug={debug} interrupt_at={int_at:?}", machine(idx, mode, debug).1));
     });
@@ -114,5 +115,5 @@ pub fn run_engine(ctx: &Ctx) -> Report {
 pub fn replay(case: &str) -> Option<String> {
     let p: Vec<&str> = case.split(':').collect();
     let at: i64 = p.get(3)?.parse().ok()?;
-    run(p.first()?.parse().ok()?, p.get(1)?.parse().ok()?, *p.get(2)? == "1", if at < 0 { None } else { Some(at as u64) }).err().map(|(s, d)| format!("[{s}] {d}"))
+    run(p.first()?.parse().ok()?, p.get(1)?.parse().ok()?, *p.get(2)? == "1", if at < 0 { None } else { Some(at as u64) }, p.get(4).and_then(|x| x.parse().ok()).unwrap_or(0x90)).err().map(|(s, d)| format!("[{s}] {d}"))
 }
